@@ -11,7 +11,7 @@
 (*   begin w, files        Write w starts                                    *)
 (*   step  point, arg, dirs = <<[w, files]...>>, target, new                 *)
 (*   crash                 the process died at the last step point           *)
-(*   ret   w, err                                                            *)
+(*   ret   w, err, faulted    (faulted: the harness made RemoveAll(prev) fail)*)
 EXTENDS DirImpl, TraceLib
 
 Trace == LoadTrace("trace.ndjson")
@@ -22,7 +22,7 @@ tvars == <<vars, tr, l>>
 TInit == /\ tr \in Starts /\ l = tr
          /\ sets = [i \in 1..Len(Trace[tr].sets) |-> ToSet(Trace[tr].sets[i])]
          /\ dirs = << >> /\ target = 0 /\ new = 0
-         /\ pc = "idle" /\ w = 0 /\ todo = {} /\ prev = 0 /\ crashes = 0
+         /\ pc = "idle" /\ w = 0 /\ todo = {} /\ prev = 0 /\ crashes = 0 /\ faults = 0
          /\ c = CReset
 HasNext == l + 1 <= Trace[tr].end
 Ev == Trace[l + 1]
@@ -49,6 +49,7 @@ TCrash == /\ HasNext /\ Ev.ev = "crash" /\ Eat /\ Crash
 TRet == /\ HasNext /\ Ev.ev = "ret" /\ Eat /\ Ev.w = w
         /\ \/ Ret /\ ~Ev.err
            \/ Symlink /\ pc' = "idle" /\ Ev.err          \* as-found code only: 'file exists' after an earlier crash
+           \/ RemovePrevFail /\ Ev.err /\ Ev.faulted    \* the harness made the removal of the previous version fail
 
 TNext == TBegin \/ TStep \/ TCrash \/ TRet
 TSpec == TInit /\ [][TNext]_tvars
